@@ -94,10 +94,12 @@ theorem frame_ioniceSet (c : Cfg) (k : Kernel) {pid : Nat} (h : pid ≠ 0) (cls 
         · cases hk
         · split at hk
           · cases hk
-          · simp only at hk
-            split at hk
-            · exact frame_sysIoprioSet h (frame_ofSys hk)
+          · split at hk
             · cases hk
+            · simp only at hk
+              split at hk
+              · exact frame_sysIoprioSet h (frame_ofSys hk)
+              · cases hk
       · exact Frame.refl _ _
 
 theorem frame_cpuAffinitySet (k : Kernel) {pid : Nat} (h : pid ≠ 0) (cpus : List Int) :
